@@ -20,6 +20,20 @@ constexpr bool pre_c10_nonneg2(fixed_t a, fixed_t b) { return a.v >= 0 && b.v >=
 constexpr bool lem_c10_tan_factors(fixed_t a, fixed_t b) { return detail::tan_range(a.v) != detail::tan_range(b.v) || tan(a) == tan(b); }
 constexpr bool lem_c10_period(fixed_t x, int64_t k) { return tan(as_fixed(x.v + k * PHI)) == tan(x); }
 // series kernel tan_<20> on its call domain [0, pi/4] (prec 20): result between x and 1.02 (so >> 4 is >= 1 for x >= 16)
+// thorough tier: the series kernel tan_<20> against the exact degree-15 Maclaurin polynomial of the tangent
+//   x + x^3/3 + 2x^5/15 + 17x^7/315 + 62x^9/2835 + 1382x^11/155925 + 21844x^13/6081075 + 929569x^15/638512875
+// (the nested form in the source).  vf_tan_poly_scaled(x) = 638512875 * 2^60 * 2^20 * P(x / 2^20) in 128-bit integers; every `>> 40`
+// truncates by less than one unit of 2^-60 (of a 2^-20 ulp), so the value is exact up to 2^-27 of such an ulp.  post_tan_poly: the kernel
+// is within 3 units of 2^-20 (0.19 ulp of the 48.16 format; measured maximum 2.29) of that polynomial on [0, pi/4].
+// (the masks are no-ops on the domain x < 2^20 -- a_k <= a_1 < 2^80 -- and only tell the bit-level back end the operand widths)
+constexpr wide vf_tan_poly_scaled(long x)
+  { unsigned long const X = static_cast<unsigned long>(x) & 0xFFFFFul, x2 = X * X;
+    uwide const M = (uwide(1) << 80) - 1, a1 = uwide(X) << 60, a3 = ((a1 * x2) >> 40) & M, a5 = ((a3 * x2) >> 40) & M, a7 = ((a5 * x2) >> 40) & M,
+      a9 = ((a7 * x2) >> 40) & M, a11 = ((a9 * x2) >> 40) & M, a13 = ((a11 * x2) >> 40) & M, a15 = ((a13 * x2) >> 40) & M;
+    return wide(uwide(638512875) * a1 + uwide(212837625) * a3 + uwide(85135050) * a5 + uwide(34459425) * a7 + uwide(13963950) * a9
+         + uwide(5659290) * a11 + uwide(2293620) * a13 + uwide(929569) * a15); }
+constexpr bool post_tan_poly(long x, long r)
+  { wide d = (wide(638512875) << 60) * wide(r) - vf_tan_poly_scaled(x); if( d < 0 ) d = -d; return d <= 3 * (wide(638512875) << 60); }
 constexpr bool pre_tan_k(long x) { return x >= 0 && x <= 880000; }     // call sites need [0, 823552]; proved on a 7% wider domain so that a small shift of the crossover is not a precondition failure
 constexpr bool post_tan_k(long x, long r) { return r >= x && r <= 1200000 && (x > 823552 || r <= 1069548) && (x != 0 || r == 0); }   // tan_(0) == 0 is what makes tan odd at 0
 // div_<16>: truncated quotient of x*2^16 by y, bounded by |x|*2^16
